@@ -201,6 +201,20 @@ func RunCheck(o CheckOpts) int {
 	}
 	os.RemoveAll(outDir)
 	NoRetry = func(n string) bool { return known.match(o.Prop, oblClass(n)) != nil }
+	// solver seconds each obligation class needed when the baseline was written: an obligation that is normally decided
+	// in a fraction of a second and now times out gets a short second chance, one that is known to be slow a long one
+	timingPath := filepath.Join(o.Verif, "contracts", "timing.json")
+	timing := map[string]map[string]float64{}
+	if bs, err := os.ReadFile(timingPath); err == nil {
+		json.Unmarshal(bs, &timing)
+	}
+	RetryHint = func(n string) (float64, bool) {
+		tp, ok := timing[o.Prop]
+		if !ok || !baseline.has(o.Prop, oblClass(n)) {
+			return 0, false
+		}
+		return tp[oblClass(n)], true // 0: decided in under half a second when the baseline was written
+	}
 	srs := SolveAll(g, header, results, outDir, o.Par, timeout, o.Tier == "thorough")
 	for _, r := range results {
 		// assumptions registered while the per-function headers were assembled (instance axioms about literals)
@@ -371,6 +385,17 @@ func RunCheck(o CheckOpts) int {
 		bs, _ := json.MarshalIndent(baseline, "", " ")
 		os.WriteFile(basePath, bs, 0o644)
 		fmt.Printf("baseline: property=%s classes=%d written to %s\n", o.Prop, len(cls), basePath)
+		tm := map[string]float64{}
+		for _, s := range srs {
+			if s.Status == "unsat" && s.Seconds >= 0.5 {
+				if c := oblClass(s.Obl.Name); s.Seconds > tm[c] {
+					tm[c] = float64(int(s.Seconds*10)) / 10
+				}
+			}
+		}
+		timing[o.Prop] = tm // only classes that needed half a second or more; everything else counts as fast
+		tb, _ := json.MarshalIndent(timing, "", " ")
+		os.WriteFile(timingPath, tb, 0o644)
 	}
 	sort.Strings(knownLines)
 	for _, l := range knownLines {
